@@ -184,10 +184,10 @@ Proof.
   rewrite (I inv t Hin) in H. discriminate.
 Qed.
 
-Lemma consume_preserves : forall at_tok m seen t p m', no_foreign_invite_token m seen ->
-  invite_accepted_at at_tok m t p = Some m' -> no_foreign_invite_token m' seen /\ pm_app m' = pm_app m.
+Lemma consume_preserves : forall m seen t p m', no_foreign_invite_token m seen ->
+  invite_accepted m t p = Some m' -> no_foreign_invite_token m' seen /\ pm_app m' = pm_app m.
 Proof.
-  intros at_tok m seen t p m' I H. unfold invite_accepted_at in H.
+  intros m seen t p m' I H. unfold invite_accepted in H.
   assert (P : no_foreign_invite_token (push m (token_of (pm_secret m) (p_pub p)) (TAllowed (p_key p))) seen).
   { intros inv t0 Hin. unfold push in Hin. cbn [pm_tokens] in Hin. apply in_app_or in Hin.
     destruct Hin as [Hin|[Hin|[]]]; [eapply I; exact Hin|].
@@ -197,17 +197,18 @@ Proof.
 Qed.
 
 (* the per-operation part of the oracle holds on the model's answers, from any state that only holds
-   invitation tokens of invitations seen so far; for the code as it is AND for the repaired variant *)
-Lemma spec_ops_run : forall at_tok ops m seen, no_foreign_invite_token m seen ->
-  spec_ops (pm_app m) seen ops (run_ops_with (invite_accepted_at at_tok) m ops) = true.
+   invitation tokens of invitations seen so far *)
+Lemma spec_ops_run : forall ops next m seen, no_foreign_invite_token m seen ->
+  spec_ops (pm_app m) seen ops (run_ops next m ops) = true.
 Proof.
-  intros at_tok. induction ops as [|op ops IH]; intros m seen I; [reflexivity|].
-  cbn [run_ops_with].
-  destruct op as [inv|b|tr k|tr p]; cbn [step_with].
+  induction ops as [|op ops IH]; intros next m seen I; [reflexivity|].
+  cbn [run_ops].
+  destruct op as [|b|tr k|tr p]; cbn [step].
   - (* create *)
     cbn [spec_ops op_ok seen_after andb].
-    change (pm_app m) with (pm_app (create_invite m inv)). apply IH.
+    change (pm_app m) with (pm_app (create_invite m next)). apply IH.
     intros i t Hin. unfold create_invite, push in Hin. cbn [pm_tokens] in Hin. apply in_app_or in Hin.
+    unfold zn. rewrite N2Z.id.
     destruct Hin as [Hin|[Hin|[]]]; [apply mem_n_cons; eapply I; exact Hin|].
     inversion Hin; subst. apply mem_n_head.
   - (* accept *)
@@ -222,7 +223,7 @@ Proof.
       * cbn [spec_ops op_ok seen_after Z.eqb andb]. apply IH. exact I.
   - (* lookup *)
     destruct (lookup_obs (get_token_type m (tok_of_ref m tr) k)) as [a b] eqn:L.
-    cbn [spec_ops]. rewrite (IH m (seen_after seen (OLookup tr k) a)) by (cbn [seen_after]; exact I).
+    cbn [spec_ops]. rewrite (IH next m (seen_after seen (OLookup tr k) a b)) by (cbn [seen_after]; exact I).
     rewrite andb_true_r. cbn [op_ok]. apply andb_true_iff. split.
     + (* an allowed-peer answer names the claimed key *)
       destruct (get_token_type m (tok_of_ref m tr) k) as [t|] eqn:G; [|inversion L; reflexivity].
@@ -242,227 +243,315 @@ Proof.
       { destruct tr as [inv|q|]; try exact Logic.I. destruct (mem_n inv seen) eqn:M; [reflexivity|].
         specialize (Unseen inv eq_refl M). discriminate Unseen. }
       destruct t as [k|inv|inv a s].
-      * cbn [spec_ops op_ok seen_after]. rewrite (IH m seen I). rewrite andb_true_r.
+      * cbn [spec_ops op_ok seen_after]. rewrite (IH next m seen I). rewrite andb_true_r.
         destruct tr as [inv|q|]; try reflexivity. rewrite Seen. reflexivity.
-      * destruct (invite_accepted_at at_tok m (TOwned inv) p) as [m'|] eqn:C.
-        -- destruct (consume_preserves _ _ _ _ _ _ I C) as [I' A].
-           cbn [spec_ops op_ok seen_after]. rewrite <- A. rewrite (IH m' seen I'). rewrite andb_true_r.
+      * destruct (invite_accepted m (TOwned inv) p) as [m'|] eqn:C.
+        -- destruct (consume_preserves _ _ _ _ _ I C) as [I' A].
+           cbn [spec_ops op_ok seen_after]. rewrite <- A. rewrite (IH next m' seen I'). rewrite andb_true_r.
            destruct tr as [i|q|]; try reflexivity. rewrite Seen. reflexivity.
-        -- cbn [spec_ops op_ok seen_after]. rewrite (IH m seen I). rewrite andb_true_r.
+        -- cbn [spec_ops op_ok seen_after]. rewrite (IH next m seen I). rewrite andb_true_r.
            destruct tr as [i|q|]; try reflexivity. rewrite Seen. reflexivity.
-      * destruct (invite_accepted_at at_tok m (TInvite inv a s) p) as [m'|] eqn:C.
-        -- destruct (consume_preserves _ _ _ _ _ _ I C) as [I' A].
-           cbn [spec_ops op_ok seen_after]. rewrite <- A. rewrite (IH m' seen I'). rewrite andb_true_r.
+      * destruct (invite_accepted m (TInvite inv a s) p) as [m'|] eqn:C.
+        -- destruct (consume_preserves _ _ _ _ _ I C) as [I' A].
+           cbn [spec_ops op_ok seen_after]. rewrite <- A. rewrite (IH next m' seen I'). rewrite andb_true_r.
            destruct tr as [i|q|]; try reflexivity. rewrite Seen. reflexivity.
-        -- cbn [spec_ops op_ok seen_after]. rewrite (IH m seen I). rewrite andb_true_r.
+        -- cbn [spec_ops op_ok seen_after]. rewrite (IH next m seen I). rewrite andb_true_r.
            destruct tr as [i|q|]; try reflexivity. rewrite Seen. reflexivity.
-    + cbn [lookup_obs fst spec_ops op_ok seen_after]. rewrite (IH m seen I). rewrite andb_true_r.
+    + cbn [lookup_obs fst spec_ops op_ok seen_after]. rewrite (IH next m seen I). rewrite andb_true_r.
       destruct tr as [inv|q|]; try reflexivity. destruct (mem_n inv seen); reflexivity.
 Qed.
 
 Lemma init_pm_no_foreign : forall app me mk, no_foreign_invite_token (init_pm app me mk) [].
 Proof. intros app me mk inv t Hin. cbn in Hin. destruct Hin as [Hin|[]]. discriminate Hin. Qed.
 
-Lemma table_holds : forall app me mk ops, spec_ops app [] ops (run_ops (init_pm app me mk) ops) = true.
-Proof. intros app me mk ops. exact (spec_ops_run (fun tk _ => tk) ops (init_pm app me mk) [] (init_pm_no_foreign app me mk)). Qed.
+Lemma table_holds : forall app me mk ops, spec_ops app [] ops (run_ops 1 (init_pm app me mk) ops) = true.
+Proof. intros app me mk ops. exact (spec_ops_run ops 1 (init_pm app me mk) [] (init_pm_no_foreign app me mk)). Qed.
 
 Lemma successes_le_attempts : forall inv ops obs, (successes inv ops obs <= attempts inv ops)%nat.
 Proof.
   intros inv. induction ops as [|op ops IH]; intros obs; [destruct obs; cbn; lia|].
   destruct obs as [|a [|b obs]]; cbn [successes]; try lia.
   specialize (IH obs).
-  destruct op as [i|bs|tr k|tr p]; cbn [attempts]; try lia.
+  destruct op as [|bs|tr k|tr p]; cbn [attempts]; try lia.
   destruct tr as [i|q|]; try lia.
   destruct (N.eqb i inv); cbn [andb]; [|lia].
   destruct ((Z.eqb a 2 || Z.eqb a 3) && Z.eqb b 1); lia.
 Qed.
 
-(* outside class 1 (no invitation presented twice) single use holds for whatever is observed *)
-Lemma single_use_outside_known : forall ops obs,
-  existsb (fun inv => Nat.ltb 1 (attempts inv ops)) (invs_of ops) = false ->
-  forallb (fun inv => Nat.leb (successes inv ops obs) 1) (invs_of ops) = true.
-Proof.
-  intros ops obs H. apply forallb_forall. intros inv Hin.
-  assert (A : Nat.ltb 1 (attempts inv ops) = false).
-  { destruct (Nat.ltb 1 (attempts inv ops)) eqn:E; [|reflexivity].
-    assert (X : existsb (fun inv => Nat.ltb 1 (attempts inv ops)) (invs_of ops) = true)
-      by (apply existsb_exists; exists inv; split; assumption).
-    rewrite X in H. discriminate. }
-  apply Nat.ltb_ge in A. apply Nat.leb_le. pose proof (successes_le_attempts inv ops obs). lia.
-Qed.
-
-(* REFUTED as the code is: one owned invitation, two different keys, both accepted and allowed *)
-Definition twice : list pmop :=
-  [OCreate 1; OConsume (RInv 1) {| p_key := 2; p_pub := 2 |}; OConsume (RInv 1) {| p_key := 3; p_pub := 3 |};
-   OLookup (RPeer {| p_key := 2; p_pub := 2 |}) 2; OLookup (RPeer {| p_key := 3; p_pub := 3 |}) 3].
-Definition me0 : secret := {| s_bytes := 1; s_pub := 1 |}.
-Lemma invite_refuted :
-  run_C19 (CInvites 1 me0 1 twice) = [1; 1; 2; 1; 2; 1; 1; 2; 1; 3]%Z /\
-  successes 1 twice (run_C19 (CInvites 1 me0 1 twice)) = 2%nat /\
-  spec_C19 (CInvites 1 me0 1 twice) (run_C19 (CInvites 1 me0 1 twice)) = false /\
-  known_C19 (CInvites 1 me0 1 twice) = [1]%Z.
-Proof. vm_compute. repeat split; reflexivity. Qed.
-
-(* ---- the repaired variant: an owned invitation is consumed at most once, for every history ---- *)
-Definition count_owned (inv : N) (l : list (token * ttype)) : nat :=
-  length (filter (fun e => token_eqb (fst e) (TkInvite inv) && is_owned inv (snd e)) l).
-Definition creates (inv : N) (ops : list pmop) : nat :=
-  length (filter (fun op => match op with OCreate i => N.eqb i inv | _ => false end) ops).
-(* consumptions that were granted on the owned invitation inv *)
-Fixpoint owned_successes (inv : N) (ops : list pmop) (obs : list Z) : nat :=
+(* ---- an invitation is consumed at most as often as it was registered; w = count received
+        invitations too (false: only the ones this instance created) ---- *)
+Definition regsel (w : bool) (inv : N) (e : token * ttype) : bool :=
+  token_eqb (fst e) (TkInvite inv) && (is_owned inv (snd e) || (w && is_invite inv (snd e))).
+Definition cntw (w : bool) (inv : N) (l : list (token * ttype)) : nat := length (filter (regsel w inv) l).
+Fixpoint succw (w : bool) (inv : N) (ops : list pmop) (obs : list Z) : nat :=
   match ops, obs with
   | op :: r, a :: b :: obs' =>
       ((match op with
-        | OConsume (RInv i) _ => if N.eqb i inv && Z.eqb a 2 && Z.eqb b 1 then 1 else 0
+        | OConsume (RInv i) _ => if N.eqb i inv && (Z.eqb a 2 || (w && Z.eqb a 3)) && Z.eqb b 1 then 1 else 0
         | _ => 0
-        end) + owned_successes inv r obs')%nat
+        end) + succw w inv r obs')%nat
   | _, _ => O
   end.
-(* owned-invitation entries sit under their own token (only create_invite makes them) *)
-Definition owned_placed (l : list (token * ttype)) : Prop :=
-  forall tk i, In (tk, TOwned i) l -> tk = TkInvite i.
+(* registrations still to come: the create that gets rank inv, and (w) the accepts of inv *)
+Definition futw (w : bool) (app inv next : N) (ops : list pmop) : nat :=
+  ((if N.leb next inv && N.ltb inv (next + n_creates ops) then 1 else 0) + (if w then accepts app inv ops else 0))%nat.
+(* invitation entries sit under their own token *)
+Definition placed (l : list (token * ttype)) : Prop :=
+  (forall tk i, In (tk, TOwned i) l -> tk = TkInvite i) /\ (forall tk i a s, In (tk, TInvite i a s) l -> tk = TkInvite i).
 
-Lemma count_owned_app : forall inv l1 l2, count_owned inv (l1 ++ l2) = (count_owned inv l1 + count_owned inv l2)%nat.
-Proof. intros. unfold count_owned. rewrite filter_app, app_length. reflexivity. Qed.
+Lemma cntw_app : forall w inv l1 l2, cntw w inv (l1 ++ l2) = (cntw w inv l1 + cntw w inv l2)%nat.
+Proof. intros. unfold cntw. rewrite filter_app, app_length. reflexivity. Qed.
 
-Lemma remove_first_count : forall inv tk p l,
-  (count_owned inv (remove_first tk p l) <= count_owned inv l)%nat.
+Lemma remove_first_cnt_le : forall w inv tk p l, (cntw w inv (remove_first tk p l) <= cntw w inv l)%nat.
 Proof.
-  intros inv tk p. induction l as [|e l IH]; [cbn; lia|].
+  intros w inv tk p. induction l as [|e l IH]; [cbn; lia|].
   cbn [remove_first]. destruct (token_eqb (fst e) tk && p (snd e)).
-  - unfold count_owned. cbn [filter]. destruct (_ && _); cbn [length]; lia.
-  - unfold count_owned in *. cbn [filter]. destruct (token_eqb (fst e) (TkInvite inv) && is_owned inv (snd e)); cbn [length]; lia.
+  - unfold cntw. cbn [filter]. destruct (regsel w inv e); cbn [length]; lia.
+  - unfold cntw in *. cbn [filter]. destruct (regsel w inv e); cbn [length]; lia.
 Qed.
 
-Lemma remove_first_owned_dec : forall inv l,
-  (exists e, In e l /\ token_eqb (fst e) (TkInvite inv) && is_owned inv (snd e) = true) ->
-  S (count_owned inv (remove_first (TkInvite inv) (is_owned inv) l)) = count_owned inv l.
+Lemma remove_first_cnt_dec : forall w inv p l,
+  (forall e, token_eqb (fst e) (TkInvite inv) && p (snd e) = true -> regsel w inv e = true) ->
+  (exists e, In e l /\ token_eqb (fst e) (TkInvite inv) && p (snd e) = true) ->
+  S (cntw w inv (remove_first (TkInvite inv) p l)) = cntw w inv l.
 Proof.
-  intros inv. induction l as [|e l IH]; intros [x [Hin Hx]]; [destruct Hin|].
-  cbn [remove_first]. destruct (token_eqb (fst e) (TkInvite inv) && is_owned inv (snd e)) eqn:E.
-  - unfold count_owned. cbn [filter]. rewrite E. reflexivity.
+  intros w inv p l Sub. induction l as [|e l IH]; intros [x [Hin Hx]]; [destruct Hin|].
+  cbn [remove_first]. destruct (token_eqb (fst e) (TkInvite inv) && p (snd e)) eqn:E.
+  - unfold cntw. cbn [filter]. rewrite (Sub e E). reflexivity.
   - destruct Hin as [Hin|Hin]; [subst x; rewrite E in Hx; discriminate|].
-    unfold count_owned in *. cbn [filter]. rewrite E. apply IH. exists x. split; assumption.
+    unfold cntw in *. cbn [filter]. destruct (regsel w inv e); cbn [length]; [f_equal|]; apply IH; exists x; split; assumption.
 Qed.
 
-Lemma owned_placed_remove : forall tk p l, owned_placed l -> owned_placed (remove_first tk p l).
-Proof. intros tk p l H t i Hin. apply H. eapply remove_first_incl. exact Hin. Qed.
-
-Theorem fixed_single_use_gen : forall inv ops m, owned_placed (pm_tokens m) ->
-  (owned_successes inv ops (run_ops_with invite_accepted_fixed m ops) <= count_owned inv (pm_tokens m) + creates inv ops)%nat.
+Lemma placed_push_allowed : forall l tk k, placed l -> placed (l ++ [(tk, TAllowed k)]).
 Proof.
-  intros inv. induction ops as [|op ops IH]; intros m P; [cbn; lia|].
-  cbn [run_ops_with].
-  destruct op as [i|b|tr k|tr p]; cbn [step_with].
+  intros l tk k [P1 P2]. split.
+  - intros t i Hin. apply in_app_or in Hin. destruct Hin as [Hin|[Hin|[]]]; [apply P1; exact Hin | discriminate Hin].
+  - intros t i a s Hin. apply in_app_or in Hin. destruct Hin as [Hin|[Hin|[]]]; [eapply P2; exact Hin | discriminate Hin].
+Qed.
+Lemma placed_remove : forall tk p l, placed l -> placed (remove_first tk p l).
+Proof.
+  intros tk p l [P1 P2]. split.
+  - intros t i Hin. apply P1. eapply remove_first_incl. exact Hin.
+  - intros t i a s Hin. eapply P2. eapply remove_first_incl. exact Hin.
+Qed.
+
+Lemma fut_create : forall w app inv next ops,
+  ((if regsel w inv (TkInvite next, TOwned next) then 1 else 0) + futw w app inv (N.succ next) ops = futw w app inv next (OCreate :: ops))%nat.
+Proof.
+  intros w app inv next ops. unfold futw, regsel. cbn [fst snd token_eqb is_owned is_invite n_creates accepts].
+  rewrite andb_false_r, orb_false_r, andb_diag.
+  destruct (N.eqb next inv) eqn:E.
+  - apply N.eqb_eq in E. subst inv.
+    replace (N.leb (N.succ next) next) with false by (symmetry; apply N.leb_gt; lia).
+    replace (N.leb next next) with true by (symmetry; apply N.leb_le; lia).
+    replace (N.ltb next (next + N.succ (n_creates ops))) with true by (symmetry; apply N.ltb_lt; lia).
+    cbn [andb]. lia.
+  - apply N.eqb_neq in E.
+    replace (N.leb (N.succ next) inv && N.ltb inv (N.succ next + n_creates ops))
+       with (N.leb next inv && N.ltb inv (next + N.succ (n_creates ops))); [lia|].
+    destruct (N.leb next inv) eqn:L1; destruct (N.leb (N.succ next) inv) eqn:L2;
+      destruct (N.ltb inv (next + N.succ (n_creates ops))) eqn:L3; destruct (N.ltb inv (N.succ next + n_creates ops)) eqn:L4;
+      try reflexivity; exfalso;
+      repeat match goal with
+             | H : N.leb _ _ = true |- _ => apply N.leb_le in H
+             | H : N.leb _ _ = false |- _ => apply N.leb_gt in H
+             | H : N.ltb _ _ = true |- _ => apply N.ltb_lt in H
+             | H : N.ltb _ _ = false |- _ => apply N.ltb_ge in H
+             end; lia.
+Qed.
+
+Theorem consumed_le_registered : forall w inv ops next m, placed (pm_tokens m) ->
+  (succw w inv ops (run_ops next m ops) <= cntw w inv (pm_tokens m) + futw w (pm_app m) inv next ops)%nat.
+Proof.
+  intros w inv. induction ops as [|op ops IH]; intros next m P; [cbn; lia|].
+  cbn [run_ops].
+  destruct op as [|b|tr k|tr p]; cbn [step].
   - (* create *)
-    cbn [owned_successes]. unfold creates. cbn [filter].
-    assert (P' : owned_placed (pm_tokens (create_invite m i))).
-    { intros t j Hin. unfold create_invite, push in Hin. cbn [pm_tokens] in Hin. apply in_app_or in Hin.
-      destruct Hin as [Hin|[Hin|[]]]; [apply P; exact Hin | inversion Hin; reflexivity]. }
-    specialize (IH (create_invite m i) P').
-    assert (C : count_owned inv (pm_tokens (create_invite m i)) =
-                (count_owned inv (pm_tokens m) + (if N.eqb i inv then 1 else 0))%nat).
-    { unfold create_invite, push. cbn [pm_tokens]. rewrite count_owned_app. f_equal.
-      unfold count_owned. cbn [filter fst snd token_eqb is_owned]. destruct (N.eqb i inv); reflexivity. }
-    unfold creates in *. destruct (N.eqb i inv); cbn [length] in *; lia.
+    cbn [succw].
+    assert (P' : placed (pm_tokens (create_invite m next))).
+    { destruct P as [P1 P2]. unfold create_invite, push. cbn [pm_tokens]. split.
+      - intros t j Hin. apply in_app_or in Hin. destruct Hin as [Hin|[Hin|[]]]; [apply P1; exact Hin | inversion Hin; reflexivity].
+      - intros t j a s Hin. apply in_app_or in Hin. destruct Hin as [Hin|[Hin|[]]]; [eapply P2; exact Hin | discriminate Hin]. }
+    specialize (IH (N.succ next) (create_invite m next) P').
+    change (pm_app (create_invite m next)) with (pm_app m) in IH.
+    assert (C : cntw w inv (pm_tokens (create_invite m next)) =
+                (cntw w inv (pm_tokens m) + (if regsel w inv (TkInvite next, TOwned next) then 1 else 0))%nat).
+    { unfold create_invite, push. cbn [pm_tokens]. rewrite cntw_app. f_equal. unfold cntw. cbn [filter].
+      destruct (regsel w inv (TkInvite next, TOwned next)); reflexivity. }
+    pose proof (fut_create w (pm_app m) inv next ops) as F. lia.
   - (* accept *)
-    unfold creates. cbn [filter]. fold (creates inv ops).
-    destruct (accept_invite m b) as [m'|] eqn:A; cbn [owned_successes].
+    destruct (accept_invite m b) as [m'|] eqn:A; cbn [succw].
     + destruct b as [|i a s]; [discriminate A|]. cbn [accept_invite] in A.
-      destruct (N.eqb a (pm_app m)); [|discriminate A]. inversion A; subst m'.
-      assert (P' : owned_placed (pm_tokens (push m (TkInvite i) (TInvite i a s)))).
-      { intros t j Hin. unfold push in Hin. cbn [pm_tokens] in Hin. apply in_app_or in Hin.
-        destruct Hin as [Hin|[Hin|[]]]; [apply P; exact Hin | discriminate Hin]. }
-      specialize (IH _ P').
-      assert (C : count_owned inv (pm_tokens (push m (TkInvite i) (TInvite i a s))) = count_owned inv (pm_tokens m)).
-      { unfold push. cbn [pm_tokens]. rewrite count_owned_app. unfold count_owned at 2. cbn [filter fst snd is_owned].
-        rewrite andb_false_r. cbn [length]. lia. }
-      lia.
-    + specialize (IH m P). lia.
+      destruct (N.eqb a (pm_app m)) eqn:Ea; [|discriminate A]. inversion A; subst m'.
+      assert (P' : placed (pm_tokens (push m (TkInvite i) (TInvite i a s)))).
+      { destruct P as [P1 P2]. unfold push. cbn [pm_tokens]. split.
+        - intros t j Hin. apply in_app_or in Hin. destruct Hin as [Hin|[Hin|[]]]; [apply P1; exact Hin | discriminate Hin].
+        - intros t j a0 s0 Hin. apply in_app_or in Hin. destruct Hin as [Hin|[Hin|[]]]; [eapply P2; exact Hin | inversion Hin; reflexivity]. }
+      specialize (IH next _ P'). change (pm_app (push m (TkInvite i) (TInvite i a s))) with (pm_app m) in IH.
+      assert (C : cntw w inv (pm_tokens (push m (TkInvite i) (TInvite i a s))) =
+                  (cntw w inv (pm_tokens m) + (if w && N.eqb i inv then 1 else 0))%nat).
+      { unfold push. cbn [pm_tokens]. rewrite cntw_app. f_equal. unfold cntw, regsel. cbn [filter fst snd token_eqb is_owned is_invite].
+        destruct w; destruct (N.eqb i inv); reflexivity. }
+      unfold futw in *. cbn [n_creates accepts]. rewrite Ea.
+      destruct w; cbn [andb] in *; [|lia]. rewrite andb_true_r. destruct (N.eqb i inv); lia.
+    + specialize (IH next m P). unfold futw in *. cbn [n_creates accepts].
+      destruct b as [|i a s]; [lia|]. cbn [accept_invite] in A.
+      destruct (N.eqb a (pm_app m)); [discriminate A|]. rewrite andb_false_r. destruct w; lia.
   - (* lookup *)
     destruct (lookup_obs (get_token_type m (tok_of_ref m tr) k)) as [a b].
-    cbn [owned_successes]. unfold creates. cbn [filter]. fold (creates inv ops). specialize (IH m P). lia.
+    cbn [succw]. specialize (IH next m P). unfold futw in *. cbn [n_creates accepts]. lia.
   - (* consume *)
-    unfold creates. cbn [filter]. fold (creates inv ops).
+    assert (Fut : futw w (pm_app m) inv next (OConsume tr p :: ops) = futw w (pm_app m) inv next ops) by reflexivity.
+    rewrite Fut.
     destruct (get_token_type m (tok_of_ref m tr) (p_key p)) as [t|] eqn:G.
-    2:{ cbn [lookup_obs fst owned_successes]. specialize (IH m P).
-        destruct tr as [i|q|]; try lia. rewrite andb_false_r. lia. }
-    (* the entry that was found *)
+    2:{ cbn [lookup_obs fst succw]. specialize (IH next m P).
+        destruct tr as [i|q|]; try lia. cbn [Z.eqb]. rewrite andb_false_r. lia. }
     assert (Found : exists e, In e (pm_tokens m) /\ token_eqb (fst e) (tok_of_ref m tr) = true /\ snd e = t).
     { unfold get_token_type in G. destruct (find _ (pm_tokens m)) as [e|] eqn:F; [|discriminate G].
       inversion G. apply find_some in F. destruct F as [Hin He]. apply andb_true_iff in He.
       exists e. repeat split; [exact Hin | apply He]. }
     destruct Found as [e [Hin [Htk Ht]]].
     destruct t as [k|j|j a s].
-    + cbn [lookup_obs fst owned_successes]. specialize (IH m P).
-      destruct tr as [i|q|]; try lia. rewrite andb_false_r. lia.
-    + (* an owned invitation j: it sits under TkInvite j, and the repaired removal takes it out *)
+    + cbn [lookup_obs fst succw]. specialize (IH next m P).
+      destruct tr as [i|q|]; try lia. cbn [Z.eqb]. rewrite andb_false_r. lia.
+    + (* an owned invitation j: it sits under TkInvite j and is taken out *)
       assert (Etk : tok_of_ref m tr = TkInvite j).
-      { apply token_eqb_eq in Htk. rewrite <- Htk. destruct e as [tk t0]. cbn [fst snd] in *. subst t0. apply P. exact Hin. }
+      { apply token_eqb_eq in Htk. rewrite <- Htk. destruct e as [tk t0]. cbn [fst snd] in *. subst t0. apply (proj1 P). exact Hin. }
       set (m1 := push m (token_of (pm_secret m) (p_pub p)) (TAllowed (p_key p))).
       set (m' := {| pm_app := pm_app m1; pm_secret := pm_secret m1;
                     pm_tokens := remove_first (TkInvite j) (is_owned j) (pm_tokens m1) |}).
-      assert (CC : invite_accepted_fixed m (TOwned j) p = Some m') by reflexivity.
+      assert (CC : invite_accepted m (TOwned j) p = Some m') by reflexivity.
       rewrite CC.
-      assert (P1 : owned_placed (pm_tokens m1)).
-      { intros t0 i0 Hi. unfold m1, push in Hi. cbn [pm_tokens] in Hi. apply in_app_or in Hi.
-        destruct Hi as [Hi|[Hi|[]]]; [apply P; exact Hi | discriminate Hi]. }
-      assert (P' : owned_placed (pm_tokens m')) by (unfold m'; cbn [pm_tokens]; apply owned_placed_remove; exact P1).
-      assert (C1 : count_owned inv (pm_tokens m1) = count_owned inv (pm_tokens m)).
-      { unfold m1, push. cbn [pm_tokens]. rewrite count_owned_app. unfold count_owned at 2. cbn [filter fst snd is_owned].
-        rewrite andb_false_r. cbn [length]. lia. }
-      specialize (IH m' P'). cbn [lookup_obs fst owned_successes].
-      destruct tr as [i|q|].
-      * cbn [tok_of_ref] in Etk. inversion Etk; subst i.
-        destruct (N.eqb j inv) eqn:Ej.
-        -- apply N.eqb_eq in Ej. subst j. cbn [Z.eqb Pos.eqb andb].
-           assert (D : S (count_owned inv (pm_tokens m')) = count_owned inv (pm_tokens m1)).
-           { unfold m'. cbn [pm_tokens]. apply remove_first_owned_dec.
-             exists e. split.
-             - unfold m1, push. cbn [pm_tokens]. apply in_or_app. left. exact Hin.
-             - cbn [tok_of_ref] in Htk. rewrite Htk, Ht. cbn [is_owned]. rewrite N.eqb_refl. reflexivity. }
-           lia.
-        -- cbn [andb].
-           pose proof (remove_first_count inv (TkInvite j) (is_owned j) (pm_tokens m1)) as R.
-           unfold m' in IH at 2. cbn [pm_tokens] in IH. lia.
-      * pose proof (remove_first_count inv (TkInvite j) (is_owned j) (pm_tokens m1)) as R.
-        unfold m' in IH at 2. cbn [pm_tokens] in IH. lia.
-      * pose proof (remove_first_count inv (TkInvite j) (is_owned j) (pm_tokens m1)) as R.
-        unfold m' in IH at 2. cbn [pm_tokens] in IH. lia.
-    + (* a received invitation: owned entries are not touched *)
+      assert (P1 : placed (pm_tokens m1)) by (unfold m1, push; cbn [pm_tokens]; apply placed_push_allowed; exact P).
+      assert (P' : placed (pm_tokens m')) by (unfold m'; cbn [pm_tokens]; apply placed_remove; exact P1).
+      assert (C1 : cntw w inv (pm_tokens m1) = cntw w inv (pm_tokens m)).
+      { unfold m1, push. cbn [pm_tokens]. rewrite cntw_app. unfold cntw at 2, regsel. cbn [filter fst snd is_owned is_invite].
+        rewrite andb_false_r, orb_false_l, andb_false_r. cbn [length]. lia. }
+      specialize (IH next m' P'). change (pm_app m') with (pm_app m) in IH.
+      cbn [lookup_obs fst succw].
+      pose proof (remove_first_cnt_le w inv (TkInvite j) (is_owned j) (pm_tokens m1)) as R.
+      change (remove_first (TkInvite j) (is_owned j) (pm_tokens m1)) with (pm_tokens m') in R.
+      destruct tr as [i|q|]; try lia.
+      cbn [tok_of_ref] in Etk. inversion Etk; subst i.
+      destruct (N.eqb j inv) eqn:Ej; cbn [andb]; [|lia].
+      apply N.eqb_eq in Ej. subst j. cbn [Z.eqb Pos.eqb orb andb].
+      assert (D : S (cntw w inv (pm_tokens m')) = cntw w inv (pm_tokens m1)).
+      { unfold m'. cbn [pm_tokens]. apply remove_first_cnt_dec.
+        - intros x Hx. unfold regsel. apply andb_true_iff in Hx. destruct Hx as [H1 H2]. rewrite H1, H2. reflexivity.
+        - exists e. split.
+          + unfold m1, push. cbn [pm_tokens]. apply in_or_app. left. exact Hin.
+          + cbn [tok_of_ref] in Htk. rewrite Htk, Ht. cbn [is_owned]. rewrite N.eqb_refl. reflexivity. }
+      lia.
+    + (* a received invitation j *)
+      assert (Etk : tok_of_ref m tr = TkInvite j).
+      { apply token_eqb_eq in Htk. rewrite <- Htk. destruct e as [tk t0]. cbn [fst snd] in *. subst t0. eapply (proj2 P). exact Hin. }
       set (m1 := push m (token_of (pm_secret m) (p_pub p)) (TAllowed (p_key p))).
       set (m' := {| pm_app := pm_app m1; pm_secret := pm_secret m1;
                     pm_tokens := remove_first (TkInvite j) (is_invite j) (pm_tokens m1) |}).
-      assert (CC : invite_accepted_fixed m (TInvite j a s) p = Some m') by reflexivity.
+      assert (CC : invite_accepted m (TInvite j a s) p = Some m') by reflexivity.
       rewrite CC.
-      assert (P1 : owned_placed (pm_tokens m1)).
-      { intros t0 i0 Hi. unfold m1, push in Hi. cbn [pm_tokens] in Hi. apply in_app_or in Hi.
-        destruct Hi as [Hi|[Hi|[]]]; [apply P; exact Hi | discriminate Hi]. }
-      assert (P' : owned_placed (pm_tokens m')) by (unfold m'; cbn [pm_tokens]; apply owned_placed_remove; exact P1).
-      assert (C1 : count_owned inv (pm_tokens m1) = count_owned inv (pm_tokens m)).
-      { unfold m1, push. cbn [pm_tokens]. rewrite count_owned_app. unfold count_owned at 2. cbn [filter fst snd is_owned].
-        rewrite andb_false_r. cbn [length]. lia. }
-      specialize (IH m' P'). cbn [lookup_obs fst owned_successes].
-      pose proof (remove_first_count inv (TkInvite j) (is_invite j) (pm_tokens m1)) as R.
-      unfold m' in IH at 2. cbn [pm_tokens] in IH.
+      assert (P1 : placed (pm_tokens m1)) by (unfold m1, push; cbn [pm_tokens]; apply placed_push_allowed; exact P).
+      assert (P' : placed (pm_tokens m')) by (unfold m'; cbn [pm_tokens]; apply placed_remove; exact P1).
+      assert (C1 : cntw w inv (pm_tokens m1) = cntw w inv (pm_tokens m)).
+      { unfold m1, push. cbn [pm_tokens]. rewrite cntw_app. unfold cntw at 2, regsel. cbn [filter fst snd is_owned is_invite].
+        rewrite andb_false_r, orb_false_l, andb_false_r. cbn [length]. lia. }
+      specialize (IH next m' P'). change (pm_app m') with (pm_app m) in IH.
+      cbn [lookup_obs fst succw].
+      pose proof (remove_first_cnt_le w inv (TkInvite j) (is_invite j) (pm_tokens m1)) as R.
+      change (remove_first (TkInvite j) (is_invite j) (pm_tokens m1)) with (pm_tokens m') in R.
       destruct tr as [i|q|]; try lia.
-      replace (Z.eqb 3 2) with false by reflexivity. rewrite andb_false_r. cbn [andb]. lia.
+      cbn [tok_of_ref] in Etk. inversion Etk; subst i.
+      destruct (N.eqb j inv) eqn:Ej; cbn [andb]; [|lia].
+      apply N.eqb_eq in Ej. subst j. cbn [Z.eqb Pos.eqb orb].
+      destruct w; cbn [andb]; [|lia].
+      assert (D : S (cntw true inv (pm_tokens m')) = cntw true inv (pm_tokens m1)).
+      { unfold m'. cbn [pm_tokens]. apply remove_first_cnt_dec.
+        - intros x Hx. unfold regsel. apply andb_true_iff in Hx. destruct Hx as [H1 H2]. rewrite H1, H2. cbn [andb]. apply orb_true_r.
+        - exists e. split.
+          + unfold m1, push. cbn [pm_tokens]. apply in_or_app. left. exact Hin.
+          + cbn [tok_of_ref] in Htk. rewrite Htk, Ht. cbn [is_invite]. rewrite N.eqb_refl. reflexivity. }
+      lia.
 Qed.
 
-Theorem fixed_single_use : forall app me mk ops inv, (creates inv ops <= 1)%nat ->
-  (owned_successes inv ops (run_ops_with invite_accepted_fixed (init_pm app me mk) ops) <= 1)%nat.
+Lemma init_placed : forall app me mk, placed (pm_tokens (init_pm app me mk)).
 Proof.
-  intros app me mk ops inv H.
-  pose proof (fixed_single_use_gen inv ops (init_pm app me mk)) as G.
-  assert (P : owned_placed (pm_tokens (init_pm app me mk))).
-  { intros t i Hin. cbn in Hin. destruct Hin as [Hin|[]]. discriminate Hin. }
-  specialize (G P). cbn in G. lia.
+  intros. split.
+  - intros t i Hin. cbn in Hin. destruct Hin as [Hin|[]]. discriminate Hin.
+  - intros t i a s Hin. cbn in Hin. destruct Hin as [Hin|[]]. discriminate Hin.
 Qed.
 
-Lemma fixed_nonvacuous :
-  run_ops_with invite_accepted_fixed (init_pm 1 me0 1) twice = [1; 1; 2; 1; 0; 0; 1; 2; 0; 0]%Z /\
-  owned_successes 1 twice (run_ops_with invite_accepted_fixed (init_pm 1 me0 1) twice) = 1%nat.
-Proof. vm_compute. split; reflexivity. Qed.
+(* HOLDS (repaired by 2163820), every history: an invitation this instance created is consumed at most once *)
+Theorem invite_holds : forall app me mk ops inv,
+  (succw false inv ops (run_ops 1 (init_pm app me mk) ops) <= 1)%nat.
+Proof.
+  intros app me mk ops inv.
+  pose proof (consumed_le_registered false inv ops 1 (init_pm app me mk) (init_placed app me mk)) as G.
+  unfold futw in G. cbn [cntw init_pm pm_tokens filter regsel fst snd token_eqb andb length] in G.
+  destruct (N.leb 1 inv && N.ltb inv (1 + n_creates ops)); lia.
+Qed.
+
+Lemma succw_true : forall inv ops obs, succw true inv ops obs = successes inv ops obs.
+Proof.
+  intros inv. induction ops as [|op ops IH]; intros obs; [reflexivity|].
+  destruct obs as [|a [|b obs]]; try reflexivity. cbn [succw successes]. rewrite IH. reflexivity.
+Qed.
+
+(* every invitation, every history: consumed at most as often as it was registered *)
+Theorem consumed_le_registrations : forall app me mk ops inv,
+  (successes inv ops (run_ops 1 (init_pm app me mk) ops) <= registrations app inv ops)%nat.
+Proof.
+  intros app me mk ops inv. rewrite <- succw_true.
+  pose proof (consumed_le_registered true inv ops 1 (init_pm app me mk) (init_placed app me mk)) as G.
+  unfold futw in G. cbn [cntw init_pm pm_tokens pm_app filter regsel fst snd token_eqb andb length] in G.
+  unfold registrations.
+  replace (N.leb 1 inv && N.leb inv (n_creates ops)) with (N.leb 1 inv && N.ltb inv (1 + n_creates ops)); [lia|].
+  f_equal. destruct (N.ltb inv (1 + n_creates ops)) eqn:A; destruct (N.leb inv (n_creates ops)) eqn:B; try reflexivity; exfalso;
+    repeat match goal with
+           | H : N.leb _ _ = true |- _ => apply N.leb_le in H
+           | H : N.leb _ _ = false |- _ => apply N.leb_gt in H
+           | H : N.ltb _ _ = true |- _ => apply N.ltb_lt in H
+           | H : N.ltb _ _ = false |- _ => apply N.ltb_ge in H
+           end; lia.
+Qed.
+
+(* outside class 3 (an invitation registered more than once AND presented more than once) single use holds *)
+Lemma single_use_outside_known : forall app me mk ops,
+  existsb (fun inv => Nat.ltb 1 (registrations app inv ops) && Nat.ltb 1 (attempts inv ops)) (invs_of ops) = false ->
+  forallb (fun inv => Nat.leb (successes inv ops (run_ops 1 (init_pm app me mk) ops)) 1) (invs_of ops) = true.
+Proof.
+  intros app me mk ops H. apply forallb_forall. intros inv Hin.
+  assert (A : Nat.ltb 1 (registrations app inv ops) && Nat.ltb 1 (attempts inv ops) = false).
+  { destruct (Nat.ltb 1 (registrations app inv ops) && Nat.ltb 1 (attempts inv ops)) eqn:E; [|reflexivity].
+    assert (X : existsb (fun inv => Nat.ltb 1 (registrations app inv ops) && Nat.ltb 1 (attempts inv ops)) (invs_of ops) = true)
+      by (apply existsb_exists; exists inv; split; assumption).
+    rewrite X in H. discriminate. }
+  apply Nat.leb_le.
+  pose proof (successes_le_attempts inv ops (run_ops 1 (init_pm app me mk) ops)) as S1.
+  pose proof (consumed_le_registrations app me mk ops inv) as S2.
+  apply andb_false_iff in A. destruct A as [A|A]; apply Nat.ltb_ge in A; lia.
+Qed.
+
+(* the witness of the repaired class now passes; the remaining class 3 witness *)
+Definition twice : list pmop :=
+  [OCreate; OConsume (RInv 1) {| p_key := 2; p_pub := 2 |}; OConsume (RInv 1) {| p_key := 3; p_pub := 3 |};
+   OLookup (RPeer {| p_key := 2; p_pub := 2 |}) 2; OLookup (RPeer {| p_key := 3; p_pub := 3 |}) 3].
+Definition me0 : secret := {| s_bytes := 1; s_pub := 1 |}.
+Lemma invite_witness_now_holds :
+  run_C19 (CInvites 1 me0 1 twice) = [1; 1; 2; 1; 0; 0; 1; 2; 0; 0]%Z /\
+  successes 1 twice (run_C19 (CInvites 1 me0 1 twice)) = 1%nat /\
+  spec_C19 (CInvites 1 me0 1 twice) (run_C19 (CInvites 1 me0 1 twice)) = true /\
+  known_C19 (CInvites 1 me0 1 twice) = [].
+Proof. vm_compute. repeat split; reflexivity. Qed.
+
+Definition accepted_twice : list pmop :=
+  [OAccept (InviteFor 7 1 (Some 2)); OAccept (InviteFor 7 1 (Some 2));
+   OConsume (RInv 7) {| p_key := 2; p_pub := 2 |}; OConsume (RInv 7) {| p_key := 2; p_pub := 2 |}; OConsume (RInv 7) {| p_key := 2; p_pub := 2 |}].
+Lemma reregistered_refuted :
+  run_C19 (CInvites 1 me0 1 accepted_twice) = [1; 0; 1; 0; 3; 1; 3; 1; 0; 0]%Z /\
+  successes 7 accepted_twice (run_C19 (CInvites 1 me0 1 accepted_twice)) = 2%nat /\
+  spec_C19 (CInvites 1 me0 1 accepted_twice) (run_C19 (CInvites 1 me0 1 accepted_twice)) = false /\
+  known_C19 (CInvites 1 me0 1 accepted_twice) = [3]%Z.
+Proof. vm_compute. repeat split; reflexivity. Qed.
 
 (* ================================================================ tokens: run/spec *)
 Definition secs_fun (secs : list secret) : Prop :=
@@ -596,7 +685,7 @@ Proof.
   intros c Ok K. destruct c as [ch lk t r ev | app me mk ops | secs probes]; cbn [spec_C19 run_C19].
   - apply handshake_spec.
   - unfold spec_invites. apply andb_true_iff. split.
-    + change app with (pm_app (init_pm app me mk)) at 1. apply (spec_ops_run (fun tk _ => tk)). apply init_pm_no_foreign.
+    + apply table_holds.
     + apply single_use_outside_known. cbn [known_C19] in K. destruct (existsb _ (invs_of ops)); [discriminate K | reflexivity].
   - destruct Ok as [F D]. destruct (probes_defined secs probes D) as [ts Hts]. rewrite Hts.
     apply spec_tokens_run; [exact F | apply known_tokens_no_clash; exact K | exact Hts].
